@@ -1,7 +1,7 @@
 (* C02 - in-place edits are persisted exactly by save.
    Statements only; proofs are in Proofs/Sync.v and Proofs/Emit.v. *)
-From Coq Require Import List Bool NArith.
-From PC Require Import Base.Py Base.Atoms Base.Xml Model.Sync Proofs.Sync Model.Emit Proofs.Emit.
+From Coq Require Import List Bool ZArith NArith.
+From PC Require Import Base.Py Base.Atoms Base.Xml Model.Sync Proofs.Sync Model.Emit Proofs.Emit Model.SaveOnto Proofs.SaveOnto.
 Import ListNotations.
 
 (* The key lemma: for ANY old child list and ANY object list (distinct identities), the
@@ -97,6 +97,77 @@ Theorem C02_refs_in_file : forall ids n, exists n', read_node (emit_node (resolv
   node_refs n' = map ids (mnode_targets n).
 Proof. exact refs_in_file. Qed.
 Print Assumptions C02_refs_in_file.
+
+(* ---- save onto an element that already exists, attribute level (Model/SaveOnto.v): whatever
+   the old element holds, an independent reader finds the model's content afterwards ---- *)
+
+(* Material.save onto ANY old <material> that has an <instance_effect> child (other attributes and
+   children may be there and stay) *)
+Theorem C02_save_onto_read_material : forall old m ie,
+  find ns a_instance_effect old = Some ie ->
+  read_material (save_material_onto old m) = Some m.
+Proof. exact material_save_onto_read. Qed.
+Print Assumptions C02_save_onto_read_material.
+
+(* the five instance kinds: after save the element's url is the target's current id, the material
+   bindings are whatever the element holds (they are reconciled by C02_bind_material_exact) *)
+Theorem C02_save_onto_read_instance : forall u n t a tx kids k ms url,
+  tag_ikind t = Some k -> N.eqb t a_node = false ->
+  read_mats (El u n t a tx kids) = Some ms ->
+  read_node (save_instance_onto (El u n t a tx kids) url) = Some (Inst k url ms).
+Proof. exact instance_save_onto_read. Qed.
+Print Assumptions C02_save_onto_read_instance.
+
+(* Node.save, attributes: id / name are the model's when it has them, children and tag untouched *)
+Theorem C02_save_onto_node_attrs : forall old id name,
+  xattr a_id (save_node_attrs_onto old id name) = match id with Some v => Some v | None => xattr a_id old end /\
+  xattr a_name (save_node_attrs_onto old id name) = match name with Some v => Some v | None => xattr a_name old end /\
+  xkids (save_node_attrs_onto old id name) = xkids old /\ xtag (save_node_attrs_onto old id name) = xtag old.
+Proof. exact node_attrs_save_onto. Qed.
+Print Assumptions C02_save_onto_node_attrs.
+
+(* Camera.save re-creates its element: the old one does not matter *)
+Theorem C02_save_onto_read_camera : forall old c, wf_camera c -> read_camera (save_camera_onto old c) = Some c.
+Proof. exact camera_save_onto_read. Qed.
+Print Assumptions C02_save_onto_read_camera.
+
+(* Light.save (point / spot), the optional parameters: for ANY old children of the <point>/<spot>
+   element in which each parameter tag occurs at most once, after the sequence of
+   _correctValInNode calls an independent reader finds exactly the model's value for every
+   parameter of the kind (absent iff None) and every other child reads as before.
+   PARTIAL with respect to the full C02_save_onto_read for lights: the composition through
+   light/technique_common/<kind> (found by path), the colour text and the id/name attributes are
+   not composed into one statement about read_light here (each is an instance of set_attr /
+   set_text covered by the lemmas above and the direct oracle). *)
+Theorem C02_save_onto_read_light_params_partial : forall ps names done kids, NoDup names ->
+  (forall n, In n names -> (length (filter (is_tag ns n) kids) <= 1)%nat) ->
+  (forall n, In n names -> read_opt n (apply_vals done names ps kids) = assoc_val n ps) /\
+  (forall t', ~ In t' names -> read_opt t' (apply_vals done names ps kids) = read_opt t' kids).
+Proof. exact apply_vals_read. Qed.
+Print Assumptions C02_save_onto_read_light_params_partial.
+
+(* non-vacuity: a spot light's parameters saved onto an old <spot> that holds a colour, a stale
+   linear attenuation and an old falloff angle: the stale one goes, the new ones arrive, the colour stays *)
+Local Open Scope N_scope.
+Example C02_light_params_nonvacuous :
+  let old := [el a_color [] (Some [TInt (1)%Z]) []; el a_linear_attenuation [] (Some [TNum 7]) [];
+              el a_falloff_angle [] (Some [TNum 8]) []] in
+  let names := [a_constant_attenuation; a_linear_attenuation; a_quadratic_attenuation; a_falloff_angle; a_falloff_exponent] in
+  let ps := [(a_constant_attenuation, [TInt (0)%Z]); (a_falloff_angle, [TNum 9]); (a_falloff_exponent, [TNum 3])] in
+  let res := apply_vals [] names ps old in
+  map (fun n => read_opt n res) (a_color :: names) =
+  [Some [TInt (1)%Z]; Some [TInt (0)%Z]; None; None; Some [TNum 9]; Some [TNum 3]].
+Proof. vm_compute. reflexivity. Qed.
+
+Example C02_material_onto_nonvacuous :
+  read_material (save_material_onto
+     (El 5 ns a_material [(a_sid, AStr 77); (a_id, AStr 1001); (a_name, AStr 1002)] None
+         [el a_extra [] None []; El 6 ns a_instance_effect [(a_url, ARef true 1003)] None []])
+     {| m_id := AStr 2001; m_name := AStr 2002; m_effect := 2003 |})
+  = Some {| m_id := AStr 2001; m_name := AStr 2002; m_effect := 2003 |}.
+Proof. vm_compute. reflexivity. Qed.
+
+Local Close Scope N_scope.
 
 (* Regression witness: the ORIGINAL algorithm (append missing nodes, then remove stale ones while
    iterating, Base.Py.iter_remove) keeps the second of two adjacent stale siblings and does not
